@@ -261,6 +261,22 @@ CLAIMED = {
    note='Trusted: Coq kernel+VM; stub lexer; dump given as XML. Not generated: (method)/(constructor) role selection (C04), '
         'virtual-function blocks and invoker inheritance (the model has vfunc_meta, not yet tied), moved-to copies.',
    ref='DESIGN.md §4 C03'),
+ 'C04': dict(
+   technique='Coq proof over a model of symbol naming and pairing (underscore names, longest type prefix, constructor/method/static decisions) + in-Coq correspondence through the real Transformer, GDumpParser, MainTransformer and GIRWriter',
+   text='Theorems (Coq, axiom-free): the type found for a symbol is the longest prefix in whole underscore-separated words that names a '
+        'type, and prefix + "_" + rest reassembles the symbol (C04_longest_type_prefix, C04_split_join_roundtrip, induction over the '
+        'components); underscore names never contain upper case and the documented examples hold (C04_underscore_names); a function '
+        'becomes a method only of the type that is its first parameter (by value or single pointer), which can have methods and '
+        'whose prefix plus "_" starts the symbol, named by the rest (C04_method_conditions); a constructor only of the longest-prefix '
+        'type, which can be constructed, and only when it returns that type or one of its ancestors (C04_constructor_conditions; the '
+        'code as found accepted any class, fix f29afa9); every function is described exactly once plus at most one moved-to copy '
+        '(C04_described_once); get-type functions are never paired (C04_get_type_not_paired). Tie: generated namespaces over a pool of '
+        '12 types and adversarial symbols go through the real pipeline; container, element kind, name and moved-to of every C '
+        'identifier are compared with Model.C04 inside Coq; underscore/foreign symbols must be absent; crisp clauses judged directly.',
+   note='Trusted: Coq kernel+VM; stub lexer; dump as XML; whether a function is introspectable is an observed input of the '
+        'comparison (non-introspectable compatibility copies are dropped by the introspectable pass). Not generated: '
+        '(method)/(constructor) annotations, aliases, callbacks, constants, unions, out-direction first parameters.',
+   ref='DESIGN.md §4 C04'),
 }
 
 PLANNED = {}
